@@ -189,7 +189,19 @@ def check_disc(impl, res, ctx):
         n["diagrams"] += 1
         mt = [x / SCALE40 for x in m]
         errs = []
-        if len(d["temps"]) != d["npoints"] or len(mt) != d["npoints"]:
+        if d.get("options"):
+            # non-default options of the VLE solver: points may be dropped (model: solve_loop_subseq), never moved or reordered,
+            # and the diagram still closes with the critical point of the default options (model: diagram_res_last_indep)
+            n["diagrams_with_options"] = n.get("diagrams_with_options", 0) + 1
+            j = 0
+            for b in d["temps"]:
+                while j < len(mt) and not abs(mt[j] - b) <= DIA_RTOL * abs(b) + 2.0 / SCALE40:
+                    j += 1
+                if j == len(mt):
+                    errs.append("temperature %r is not (in order) one of the model temperatures" % b)
+                    break
+                j += 1
+        elif len(d["temps"]) != d["npoints"] or len(mt) != d["npoints"]:
             errs.append("%d states (model: %d temperatures) for npoints = %d" % (len(d["temps"]), len(mt), d["npoints"]))
         else:
             for a, b in zip(mt, d["temps"]):
@@ -200,12 +212,39 @@ def check_disc(impl, res, ctx):
         if not d["last_is_critical"]:
             errs.append("the last state is not the critical point")
         if errs:
-            bad.append({"what": "PhaseDiagram::pure(%s, T_min = %r, npoints = %d): %s" % (d["label"], d["tmin"], d["npoints"], "; ".join(errs)),
-                        "case": {k: d[k] for k in ("label", "npoints", "tmin", "tc")}, "model_temperatures": mt[:6], "real_temperatures": d["temps"][:6], "concrete": True})
+            bad.append({"what": "PhaseDiagram::pure(%s, T_min = %r, npoints = %d%s): %s" % (d["label"], d["tmin"], d["npoints"], ", SolverOptions { %s }" % d["options"] if d.get("options") else "", "; ".join(errs)),
+                        "case": {k: d.get(k) for k in ("label", "npoints", "tmin", "tc", "options")}, "model_temperatures": mt[:6], "real_temperatures": d["temps"][:6], "concrete": True})
     for d in impl["diagrams"]:
         if "error" in d:
-            bad.append({"what": "PhaseDiagram::pure(%s, npoints = %d) fails: %s" % (d["label"], d["npoints"], d["error"]), "case": d, "concrete": True})
+            bad.append({"what": "PhaseDiagram::pure(%s, npoints = %d%s) fails: %s" % (d["label"], d["npoints"], ", SolverOptions { %s }" % d["options"] if d.get("options") else "", d["error"]), "case": d, "concrete": True})
     return dict(ok=True, bad=bad, n=n, classes=classes)
+
+
+def check_helpers(h, tol):
+    """per-component helpers vs. the pure solver on the independently built pure model (model: per_component_spec)"""
+    bad = []
+    for c in h["comparisons"]:
+        if not c["ok"]:
+            bad.append({"what": "%s: %s: helper %r, expected %r (input %s)" % (c["config"], c["what"], c.get("helper"), c.get("expected"), json.dumps(c.get("input"))), "case": c})
+    worst = {"dp_stiff": 0.0, "dmu": 0.0}
+    for c in h["conditions"]:
+        errs = []
+        for k, lim in (("dp_stiff", tol["dp_stiff"]), ("dmu", tol["dmu_over_RT"])):
+            v = c.get(k)
+            if v is None or not v <= lim:
+                errs.append("%s = %r > %g" % (k, v, lim))
+            else:
+                worst[k] = max(worst[k], v)
+        for k, msg in (("T_equal", "phases at different temperatures"), ("ordered", "vapor not less dense than liquid"), ("other_components_empty", "other components present"), ("T_is_spec", "not at the specified temperature")):
+            if not c.get(k):
+                errs.append(msg)
+        vp = c.get("vapor_pressure_entry")
+        if vp is not None and not abs(vp - c["p_v"]) <= h["rtol"] * abs(c["p_v"]):
+            errs.append("vapor_pressure entry %r differs from the vapor pressure %r of the vle_pure_comps entry" % (vp, c["p_v"]))
+        if errs:
+            bad.append({"what": "%s: vle_pure_comps(%s)[%d] is not an equilibrium in the caller's model: p_v = %r, p_l = %r; %s"
+                                % (c["config"], json.dumps(c["spec"]), c["component"], c["p_v"], c["p_l"], "; ".join(errs)), "case": c})
+    return bad, worst
 
 
 def run(ctx):
@@ -248,7 +287,25 @@ def run(ctx):
                      "kind": kind, "count": len(fl), "point": "%s|%d" % (row["file"], row["index"]),
                      "failing_inputs": [{"file": r["file"], "index": r["index"], "name": r["name"], "tr": x.get("tr"), "T": x.get("T"), "init": x.get("init"), "what": x["what"], "state": x.get("state")} for r, x in fl[:12]],
                      "tolerances": sup["tolerances"]}, found_input=True)
-    any_support_failure = bool(new_fail)
+    # uv-theory pure models: "conditions whenever Ok" (success itself is not claimed for them)
+    hl = impl["helpers"]
+    extra_fail = []
+    for row in hl["extra_rows"]:
+        for f in row["res"]["failures"]:
+            if f["kind"] in ("conditions", "roundtrip", "diagram_options", "panic"):
+                extra_fail.append((row, f))
+    if extra_fail:
+        row, f = extra_fail[0]
+        V.violation(ctx, "%s: %s" % (row["file"], f["what"]),
+                    {"broken": "support search on the real code, uv-theory pure models (conditions whenever Ok)", "kind": f["kind"], "count": len(extra_fail),
+                     "failing_inputs": [{"model": r["file"], "tr": x.get("tr"), "T": x.get("T"), "what": x["what"], "state": x.get("state")} for r, x in extra_fail[:12]]}, found_input=True)
+    hbad, hworst = check_helpers(hl, sup["tolerances"])
+    if hbad:
+        V.violation(ctx, "per-component helper: %s (%d discrepancies)" % (hbad[0]["what"], len(hbad)),
+                    {"broken": "vapor_pressure / boiling_temperature / vle_pure_comps / critical_point_pure vs PhaseEquilibrium::pure on the independently built pure model "
+                               "(model PureDiagramC04.per_component: entry i = pure solver on the sub-model of component i of the SAME model, options included)",
+                     "cases": hbad[:10]}, found_input=True)
+    any_support_failure = bool(new_fail) or bool(extra_fail) or bool(hbad)
 
     # ---- tie A/B: loop bodies
     pt = check_pt(tie, res, ctx)
@@ -318,6 +375,10 @@ def run(ctx):
         "iterate_pure_t": {"cases": pt["files"], "interval_goals_closed": pt["goals"], "borderline_goals_not_emitted": pt["notes"], "worst_real_vs_model_rel": pt["worst"], **pt["stats"]},
         "pure_p": {"cases": pp["files"], "interval_goals_closed": pp["goals"], "borderline_goals_not_emitted": pp["notes"], "worst_real_vs_model_rel": pp["worst"], **pp["stats"]},
         "discrete": {"compared": disc["n"], "cascade_case_classes": disc["classes"]},
+        "per_component_helpers": {"comparisons": len(hl["comparisons"]), "vle_pure_comps_entries_rechecked": len(hl["conditions"]), "discrepancies": len(hbad),
+                                  "worst_dp_stiff": hworst["dp_stiff"], "worst_dmu_over_RT": hworst["dmu"], "rtol": hl["rtol"],
+                                  "configs": sorted({c["config"] for c in hl["comparisons"]}),
+                                  "uvtheory_pure_rows": [{"model": r["file"], "T_solves_ok": len(r["res"]["points"]), "failures_(success_not_claimed)": len(r["res"]["failures"])} for r in hl["extra_rows"]]},
         "tolerances": {"model_vs_anchor_rel": tie["tolerances"]["model_vs_anchor_rel"], "real_vs_model_rel": FINAL_RTOL, "diagram_temperature_rel": DIA_RTOL, "support": sup["tolerances"]},
         "support_search": {
             "level": "exploration (partial clauses: success in the stated window, mutual inverse, monotone diagrams; not counted among obligations)",
@@ -328,6 +389,8 @@ def run(ctx):
             "worst_roundtrip_dp_rel": max([x["dp_back_rel"] for x in rts if x["dp_back_rel"] is not None], default=None),
             "diagrams": len(dias), "diagram_npoints": sorted({d["npoints"] for d in dias}),
             "diagram_points_unsolved_above_0.99Tc": sum(len(d["unsolved_above_0.99Tc"]) for d in dias),
+            "diagrams_with_nondefault_options": sum(len(r["res"].get("opt_diagrams", [])) for r in sup["rows"]),
+            "option_variants_(max_iter,tol)": "(10,-) (8,1e-10) (-,1e-9) (30,1e-13), npoints 10, every record",
         },
         "samples": samples,
         "rule": "quick: 168 seeded records (+ the records of the known findings) x 8 reduced temperatures (5 for SAFT-VRQ Mie), 8 records with diagrams of 3/10/50(/200) points; "
